@@ -29,7 +29,8 @@ EXHAUSTIVE_PART = "thorough: all 4^5 behaviour mappings on each of a set of smal
 ASSUMPTIONS = ["the behaviour/default tables re-stated here are the documented ones"]
 MONITORS = ["policy_outcome", "first_offender_named", "unmodified", "second_call_same", "roundtrip_sm_ssc_sm"]
 REQUIRED = ["returned", "InvalidPropertyException", "NotImplementedError", "partial_mapping", "default_with_blanks",
-            "value_differs_from_default_only_by_inner_blanks_or_case",
+            "value_differs_from_default_only_by_inner_blanks_or_case", "default_padded_with_a_non_ascii_or_rare_blank",
+            "template_is_an_instance_of_a_subclass",
             "nonempty_default_value", "two_offenders_table_order_differs", "template_with_charts", "chart_offender",
             "copy_anyway_simfile_level", "error_behaviour", "template_empty", "chart_property_after_notes",
             "custom_key_resembling_a_table_entry"]
@@ -74,7 +75,8 @@ def state_value(rng, key, state):
     if state == "default":
         return d
     if state == "padded":
-        return rng.choice([" ", "\n", "  \n"]) + d + rng.choice([" ", "\n", ""])
+        # blanks as str.strip() knows them: ASCII ones and form feed, NBSP, ideographic space, line separator
+        return rng.choice([" ", "\n", "  \n", "\x0c", "\u00a0", "\u3000", "\u2028", "\x0b"]) + d + rng.choice([" ", "\n", "", "\u3000", "\x0c"])
     if d and rng.random() < 0.35:
         # almost the default: blanks INSIDE the value added or removed, another letter case, a longer decimal
         near = [d.replace("=", " =", 1), d.replace("=", "= ", 1), d.replace(" ", ""), d.replace(" ", "  "), d.replace("=", "=\n", 1),
@@ -146,8 +148,8 @@ def cases(ctx):
     n = ctx.split(4000 if quick else 16 * 30000)
     for i in range(n):
         yield {"kind": "one", "source": gen_source(rng), "mapping": gen_mapping(rng),
-               "template": rng.choice(["none", "none", "blank", "sparse", "with_charts", "empty"]),
-               "chart_template": rng.choice(["none", "none", "blank", "custom"])}
+               "template": rng.choice(["none", "none", "blank", "sparse", "with_charts", "empty", "subclass"]),
+               "chart_template": rng.choice(["none", "none", "blank", "custom", "subclass"])}
     # all 4^5 mappings on small simfiles
     smalls = ctx.split(2 if quick else 64)
     for _ in range(smalls):
@@ -234,8 +236,13 @@ def templates(case):
         st.charts.append(c)
     elif t == "empty":
         st = SMSimfile(string="")
+    elif t == "subclass":
+        # an instance of the caller's own subclass of SMSimfile: an SM simfile like any other
+        st = type("MySMSimfile", (SMSimfile,), {})(string="#TITLE:tpl;\n#TPLKEY:kept;\n")
     c_ = case.get("chart_template", "none")
-    if c_ == "blank":
+    if c_ == "subclass":
+        ct = type("MySMChart", (SMChart,), {}).from_msd(["tpl-steps", "tpl desc", "Edit", "1", "9,9", "tpl notes"])
+    elif c_ == "blank":
         ct = SMChart.blank()
     elif c_ == "custom":
         ct = SMChart.from_msd(["tpl-steps", "tpl desc", "Edit", "1", "9,9", "tpl notes"])
@@ -275,7 +282,8 @@ def run_one(ctx, source, mapping, case, label):
     try:
         res = ssc_to_sm(ssc, **kwargs)
         got = ("ok", dict(res.items()), [dict(zip(M.SIX, [c[k] for k in M.SIX])) for c in res.charts])
-        if type(res) is not SMSimfile or len(res) != len(got[1]) or any(type(c) is not SMChart or list(c.keys()) != M.SIX for c in res.charts):
+        if type(res) is not (type(st) if st is not None else SMSimfile) or len(res) != len(got[1]) \
+                or any(not isinstance(c, SMChart) or list(c.keys()) != M.SIX for c in res.charts):
             got = ("ok-but-wrong-shape", type(res).__name__)
     except InvalidPropertyException as e:
         got = ("InvalidPropertyException", str(e))
@@ -325,6 +333,8 @@ def observe(ctx, source, mapping, case):
             offenders.append(k)
         if kind and v != v.strip() and v.strip() == DEFAULT_VALUE.get(k, ""):
             ctx.feat("default_with_blanks")
+            if v.strip(" \t\r\n") != v.strip():
+                ctx.feat("default_padded_with_a_non_ascii_or_rare_blank")
         if kind and v == DEFAULT_VALUE.get(k) and v:
             ctx.feat("nonempty_default_value")
         if kind and DEFAULT_VALUE.get(k) and v.strip() != DEFAULT_VALUE[k] and "".join(v.split()).lower() == "".join(DEFAULT_VALUE[k].split()).lower():
@@ -343,6 +353,8 @@ def observe(ctx, source, mapping, case):
         ctx.feat("template_with_charts")
     if case.get("template") == "empty":
         ctx.feat("template_empty")
+    if case.get("template") == "subclass" or case.get("chart_template") == "subclass":
+        ctx.feat("template_is_an_instance_of_a_subclass")
     if any(its and its[-1][0] != "NOTES" and any(k == "NOTES" for k, _ in its) for its in source["charts"]):
         ctx.feat("chart_property_after_notes")
     if not offenders and not dict(source["items"]).get("WARPS"):
